@@ -10,6 +10,22 @@ fn count(bytes: &[u8], fill: u8) -> usize {
     bytes.iter().filter(|&&b| b == fill).count()
 }
 
+/// offsets whose byte equals `fill` before the drop, and after it
+fn probe_offsets<T>(value: T, fill: u8) -> (usize, Vec<usize>, Vec<usize>) {
+    let mut slot: Box<MaybeUninit<T>> = Box::new(MaybeUninit::uninit());
+    let size = size_of::<T>();
+    unsafe {
+        std::ptr::write_bytes(slot.as_mut_ptr() as *mut u8, 0, size);
+        std::ptr::write(slot.as_mut_ptr(), value);
+        let p = slot.as_ptr() as *const u8;
+        let before: Vec<usize> = (0..size).filter(|&i| std::ptr::read_volatile(p.add(i)) == fill).collect();
+        std::ptr::drop_in_place(slot.as_mut_ptr());
+        let after: Vec<usize> = (0..size).filter(|&i| std::ptr::read_volatile(p.add(i)) == fill).collect();
+        (size, before, after)
+    }
+}
+
+#[allow(dead_code)]
 fn probe_one<T>(value: T, fill: u8) -> (usize, usize, usize) {
     let mut slot: Box<MaybeUninit<T>> = Box::new(MaybeUninit::uninit());
     let size = size_of::<T>();
@@ -31,13 +47,24 @@ fn probe_one<T>(value: T, fill: u8) -> (usize, usize, usize) {
     }
 }
 
-/// (size of the value, bytes equal to `fill` before the drop, bytes equal to `fill` after it)
-pub fn drop_probe<H: HashChain>(type_name: &str, fill: u8) -> Option<(usize, usize, usize)> {
+fn offsets<H: HashChain>(type_name: &str, fill: u8) -> Option<(usize, Vec<usize>, Vec<usize>)> {
     Some(match populated_secret::<H>(type_name, fill)? {
-        SecretValue::Seed(v) => probe_one(v, fill),
-        SecretValue::SeedAndId(v) => probe_one(v, fill),
-        SecretValue::RefKey(v) => probe_one(v, fill),
-        SecretValue::Lms(v) => probe_one(v, fill),
-        SecretValue::Lmots(v) => probe_one(v, fill),
+        SecretValue::Seed(v) => probe_offsets(v, fill),
+        SecretValue::SeedAndId(v) => probe_offsets(v, fill),
+        SecretValue::RefKey(v) => probe_offsets(v, fill),
+        SecretValue::Lms(v) => probe_offsets(v, fill),
+        SecretValue::Lmots(v) => probe_offsets(v, fill),
     })
+}
+
+/// (size of the value, secret bytes before the drop, secret bytes surviving it).
+/// The probe runs twice, with `fill` and with its complement: a byte position counts only when it
+/// holds the sentinel in BOTH runs, so padding and non-secret fields that happen to equal one
+/// sentinel value are not mistaken for secret bytes.
+pub fn drop_probe<H: HashChain>(type_name: &str, fill: u8) -> Option<(usize, usize, usize)> {
+    let (size, b1, a1) = offsets::<H>(type_name, fill)?;
+    let (_, b2, a2) = offsets::<H>(type_name, !fill)?;
+    let before = b1.iter().filter(|i| b2.contains(i)).count();
+    let after = a1.iter().filter(|i| a2.contains(i)).count();
+    Some((size, before, after))
 }
